@@ -181,6 +181,12 @@ and ref_op_raw c : int * obj * (unit -> bool option) option =
       (match r with None -> raise (Skip "NOT_EQUAL") | Some r ->
         if x.topo = "C" && (r = RLT || r = RGT) then raise (Skip "strict relation on C");
         id, upd ((if op = "generalized_affine_image" then generalized_affine_image else generalized_affine_preimage) (nat v) (nat n) r e d x.s), none)
+  | "generalized_affine_image_lhs" | "generalized_affine_preimage_lhs" ->
+      let lhs = read_expr_n c in let r = read_rel c in let rhs = read_expr_n c in
+      if List.length lhs.lcoefs > n || List.length rhs.lcoefs > n then raise (Skip "dimension-incompatible");
+      (match r with None -> raise (Skip "NOT_EQUAL") | Some r ->
+        if x.topo = "C" && (r = RLT || r = RGT) then raise (Skip "strict relation on C");
+        id, upd ((if op = "generalized_affine_image_lhs" then generalized_affine_image_lhs else generalized_affine_preimage_lhs) (nat n) lhs r rhs x.s), none)
   | "bounded_affine_image" | "bounded_affine_preimage" ->
       let v = nexti c in let d = nextz c in let lb = read_expr_n c in let ub = read_expr_n c in check_den d;
       if v >= n || List.length lb.lcoefs > n || List.length ub.lcoefs > n then raise (Skip "dimension-incompatible");
